@@ -494,9 +494,26 @@ def _has_setstate(name):
 _objtag = re.compile(r"python/(object|module)")
 
 
+def _warm_other_dumpers():
+    """Once per process: the application also dumps plain data with the safe dumpers of both back-ends (every core type, tuples
+    included) - what the full dumpers write afterwards must not depend on it."""
+    if getattr(_warm_other_dumpers, "done", False):
+        return
+    import datetime
+    import yaml
+    basket = [(), (1, 2), [1], {1: 2}, {3}, b"b", "s", 1, 2 ** 70, 1.5, True, None, datetime.date(2001, 1, 1), datetime.datetime(2001, 1, 1, 1, 1, 1)]
+    yaml.safe_dump(basket)
+    yaml.safe_dump_all(basket)
+    if have_c():
+        yaml.dump(basket, Dumper=yaml.CSafeDumper)
+    yaml.safe_load(yaml.safe_dump(basket))
+    _warm_other_dumpers.done = True
+
+
 def eval_graph(case):
     import yaml
     co = _paths()
+    _warm_other_dumpers()
     bp, opts = case
     b = Builder(co)
     obj = b.go(bp)
